@@ -927,7 +927,7 @@ impl Engine for C18 {
     fn default_runs(&self, tier: Tier) -> u64 {
         match tier {
             Tier::Quick => 500_000,
-            Tier::Thorough => 6_000_000,
+            Tier::Thorough => 3_000_000,
         }
     }
     fn info(&self) -> EngineInfo {
